@@ -464,9 +464,11 @@ func eofIsForeign() bool {
 //@   assert at call Read: r.st.lim >= 0 && int64(len($b)) <= r.st.lim && (ghost(hdr) == 0 ==> old(r.st.lim) > 0) && (ghost(hdr) > 0 ==> ftype == frameTypeData)
 //@   ghost hdr += 1 after call readFrameHeader
 //@   loop 1 invariant r.st == old(r.st) && r.st.stream != nil && r.st.stream == old(r.st.stream) && r.remain == old(r.remain) && r.err == nil
+//@   loop 1 invariant ghost(hdr) >= 0 && (atloop(r.st.lim) >= 0 ==> ghost(hdr) == 0)
 //@   loop 1 invariant ghost(hdr) == 0 ==> r.st.lim == atloop(r.st.lim)
 //@   loop 1 invariant ghost(hdr) > 0 && r.st.lim >= 0 ==> (ftype == frameTypeData && (r.remain < 0 || r.st.lim <= r.remain))
 //@   loop 1 modifies r.st.lim, r.st.stream.inbuf, r.st.stream.inbufoff
+//@   loop 1 unroll 1
 //@   trustcall send100Continue
 //@   modifies r.err, r.remain, r.send100Continue, r.mu, r.st.lim, r.st.stream, r.st.stream.inbuf, r.st.stream.inbufoff, elems(p)
 //@   allocates
